@@ -106,12 +106,16 @@ fn make_project(rng: &mut Rng) -> Project {
         "import { A } from \"./a\";\nexport const P = parse.buildParsers<{ X: A; Z: { n: number } }>();\n",
         "import * as nsa from \"./a\";\nimport { B as Bee } from \"./b\";\nexport const P = parse.buildParsers<{ X: nsa.A; Y: Bee[] }>();\n",
         "import type { A } from \"./a\";\nexport * from \"./b\";\nexport const P = parse.buildParsers<{ X: A | null }>();\n",
+        "import { A } from \"@app/a\";\nimport { B } from \"@app/b\";\nexport const P = parse.buildParsers<{ X: A; Y: B | null }>();\n",
     ];
     let a_valid = vec![
         "export type A = { a: string };\n",
         "export type A = { a: number; z?: boolean };\n",
         "import { C } from \"./c\";\nexport type A = { c: C; a: string };\n",
         "import { C } from \"./lib/c\";\nexport interface A { list: C[] }\n",
+        // the same imports through a path alias (non-relative specifier)
+        "import { C } from \"@app/c\";\nexport type A = { c: C; viaAlias: true };\n",
+        "import type { C } from \"@app/lib/c\";\nexport type A = { list: C[]; viaAlias: 1 };\n",
         "export type A = \"x\" | \"y\";\nexport type Extra = 1;\n",
         // the same declaration under two doc comments (descriptions are part of the emitted code)
         "/** first wording */\nexport type A = { /** field doc */ a: string };\n",
